@@ -120,6 +120,17 @@ CLAIMED.update({
         note="Sampled histories, not exhaustive enumeration. Keys with an empty value list are treated as present-without-values (deepcopy of such a dict is skipped). Known finding D3 (CombinedMultiDict ==) is recorded.",
         technique="deterministic simulation: seeded operation histories incl. copy/pickle 'restart' against executable reference models, all reads compared after every step",
     ),
+    "C16": dict(
+        category="exploration",
+        text="One run = one history on one real Response: mutations through the live views (vary / allow / content_language, cache_control with all typed directives, www_authenticate type / token / "
+        "parameters by item and attribute, content_security_policy and its report-only twin, content_range, mimetype_params), whole-property assignments, 22 typed scalar properties and direct "
+        "header edits, interleaved; the harness holds one live view per header and re-fetches it after a direct edit or whole-property assignment. After every step the header text must equal the "
+        "mutated view's serialisation (absent when the view is empty), the re-read property must equal the live view and - for the set views - the reference model; assign -> read of a typed "
+        "property must give the documented normal form (dates at one-second resolution in UTC; retry_after = n reads back as simulated now + n through the clock seam).",
+        design_ref="3.9",
+        note="Two independently held views of the same header overwrite each other by design; not demanded. A challenge with neither token nor parameters serialises to '<Scheme> ' and reads back with token '': compared as equal.",
+        technique="deterministic simulation: seeded mutation histories over live header views with a simulated clock, coherence invariants after every step + reference model for the set views",
+    ),
 })
 
 NOT_APPLICABLE = {
